@@ -178,6 +178,10 @@ type connScript struct {
 	// confirm the previous one is thereby caught: its Items is smaller than what it must have read. A slow client
 	// only makes Items larger, so the observation is one-sided and load cannot produce a false alarm.
 	PeekMs int `json:"peek_ms,omitempty"`
+	// HoldAfterClose: after the server has sent </stream:stream> it keeps the TCP connection open and waits for the
+	// client's closing tag, as RFC 6120 4.4 tells the closing party to (no idle or stall drop any more): a client
+	// that does not notice the closed stream waits forever.
+	HoldAfterClose bool `json:"hold_after_close,omitempty"`
 	// LingerMs > 0 (C04): after a FAILED TLS handshake the server does not hang up: it goes on reading the raw socket
 	// for this long (or until it is cut) and logs what arrives there (RawBy) -- a client that refused the certificate
 	// holds that connection open for a while, and nothing but its </stream:stream> may be written on it.
@@ -383,6 +387,7 @@ func (s *scriptedServer) serve(conn net.Conn, sc connScript, lg *connLog) {
 	dec := xml.NewDecoder(pr)
 	sent := 0
 	items := 0
+	holding := false // </stream:stream> sent with HoldAfterClose: wait for the client's closing tag
 	noticed := -1
 	peek := func() {
 		if sc.PeekMs > 0 && noticed < 0 && pr.peek(time.Duration(sc.PeekMs)*time.Millisecond, dec.InputOffset()) {
@@ -402,7 +407,9 @@ func (s *scriptedServer) serve(conn net.Conn, sc connScript, lg *connLog) {
 	}
 	end := func(how string) { s.mu.Lock(); lg.Ended = how; s.mu.Unlock() }
 	for {
-		if sent >= len(sc.Groups) && sc.IdleDropMs > 0 {
+		if holding {
+			cur.SetReadDeadline(time.Now().Add(20 * time.Second))
+		} else if sent >= len(sc.Groups) && sc.IdleDropMs > 0 {
 			cur.SetReadDeadline(time.Now().Add(time.Duration(sc.IdleDropMs) * time.Millisecond))
 		} else {
 			stall := 20 * time.Second
@@ -517,6 +524,9 @@ func (s *scriptedServer) serve(conn net.Conn, sc connScript, lg *connLog) {
 			if _, err := cur.Write([]byte(it.xml())); err != nil {
 				end("write-error")
 				return
+			}
+			if it.T == "close" && sc.HoldAfterClose {
+				holding = true
 			}
 			items++
 			if it.T != "proceed" && gi+1 < len(g) {
